@@ -123,6 +123,12 @@ func (c *CertRevocationValidator) UnmarshalCaddyfile(d *caddyfile.Dispenser) err
 	c.OCSPConfig = caddyConfig.OCSPConfig
 	c.CRLConfig = caddyConfig.CRLConfig
 	c.Mode = caddyConfig.Mode
+	//the mode has to be parsed before the validation, which depends on it:
+	//modes without crl checking do not need a crl_config with a working directory
+	err = parseMode(c)
+	if err != nil {
+		return err
+	}
 	err = validateConfig(c)
 	if err != nil {
 		return err
